@@ -13,7 +13,8 @@ import GaeaVerif.Model.Balancer
         → … | (ok (sorted queue) ((v count) …))
     m (gsc DC ((w dc up pool) …) ((kl…) (kr…) (kg…)) (cl cr cg) (OP …))
         DBInfo with those nodes, InitBalancers(DC); OP = (sel P) | (up i B) | (pool i B)
-        → (ok (QL QR QG) (outcome …))      Q = nil | (sorted queue)
+        → (ok (QL QR QG) (outcome …) (gets …))   Q = nil | (sorted queue);
+          gets = per selection the list of nodes whose pool was asked, in order
     s <request> <implementation output>    property oracle
 -/
 namespace GaeaVerif.Drv.C25
@@ -147,10 +148,12 @@ def model (req : Sexp) : String :=
         match presetOpt c.cl d.localB, presetOpt c.cr d.remoteB, presetOpt c.cg d.globalB with
         | some lb, some rb, some gb =>
           let d := { d with localB := lb, remoteB := rb, globalB := gb }
-          let outs := (run d c.ops).map fun (_, _, o) => o
+          let tr := run d c.ops
+          let outs := tr.map fun (_, _, o) => o
+          let gets := tr.map fun (dk, p, _) => fmtInts (GetSlaveConnGets dk p)
           if outs.any (· == .panic) then "panic" else
           "(ok (" ++ queueOut d.localB ++ " " ++ queueOut d.remoteB ++ " " ++ queueOut d.globalB ++ ") (" ++
-            " ".intercalate (outs.map selOut) ++ "))"
+            " ".intercalate (outs.map selOut) ++ ") (" ++ " ".intercalate gets ++ "))"
         | _, _, _ => "bad"
   | _ => "bad"
 
@@ -253,7 +256,12 @@ def judgeSel (proxy : Nat) (nodes : List Node) (policy : Int) (o : Sel) : String
   | .pool i => picked i false
   | .panic => "viol selection-panic"
   | .noLocalOrRemote =>
-    if nodes.any (fun x => eligible x && x.up && x.poolOk) && !nodes.any (fun x => eligible x && x.up && !x.poolOk)
+    -- preferred-local must not give up while a local replica can serve (the same
+    -- defect as prefer-remote-while-local-can-serve when no remote replica is up);
+    -- that it also tries every remote replica is proved of the model
+    -- (`prefer_gives_up_only_if_none_serves`) and compared, not demanded here
+    if nodes.any (fun x => eligible x && isLocal x && x.up && x.poolOk) then "viol prefer-gave-up-while-local-can-serve"
+    else if nodes.any (fun x => eligible x && x.up && x.poolOk) && !nodes.any (fun x => eligible x && x.up && !x.poolOk)
     then "viol no-replica-found-while-eligible-up" else "ok"
   | _ =>
     if nodes.any (fun x => candidate x && x.up) then "viol no-replica-found-while-eligible-up" else "ok"
@@ -313,7 +321,7 @@ def oracle (req out : Sexp) : String :=
     | some c =>
       match out with
       | .atom "panic" => "viol selection-panic"
-      | .list [.atom "ok", _, .list os] =>
+      | .list [.atom "ok", _, .list os, _] =>
         match os.mapM parseSel with
         | none => "viol unparsable"
         | some outs =>
